@@ -296,7 +296,6 @@ func TestC10HandshakeCancellation(t *testing.T) {
 	})
 }
 
-
 // TestC10StreamingCancel: the server keeps streaming packets with gaps shorter than
 // the read timeout (so reads never time out); a plain cancel() must still end the
 // query promptly, with a Cancel packet and a closed connection (ungated).
